@@ -37,10 +37,14 @@ FILES = {
 
 def common_rules(prog, prop):
     """-> (list of RuleResult, list of undecided-rule lines)"""
-    from . import oneshot, defaults, classattrs
+    from . import oneshot, defaults, classattrs, memo
     T = Attempts()
     files = FILES.get(prop)
     res = T.results(T(oneshot.rule, prog, prop, files),
                     T(defaults.rule, prog, prop, files),
                     T(classattrs.rule, prog, prop, files))
+    if files is not BDD:
+        # (BDD nodes are immutable and hashed by identity: a cache there
+        # keeps nodes alive but returns nothing stale)
+        res = res + T.results(T(memo.rule, prog, prop, files))
     return res, T.extra().get('undecided_rules', [])
